@@ -170,11 +170,15 @@ def call (s : CS) (state fnext : Int) : R CS :=
     .ok { stack := setAt st s.top.toNat state, top := s.top + 1, cs := fnext, p := s.p + 1 }
   else .error .index
 
-/-- top -= n; if top < 0 { top = 0 }; if top < len(stack) { cs = stack[top] }; p++ -/
-def ret (s : CS) (n : Int) : R CS := do
-  let t := if s.top - n < 0 then 0 else s.top - n
-  let cs := if t < (s.stack.length : Int) then (s.stack[t.toNat]?).getD s.cs else s.cs
-  pure { s with top := t, cs := cs, p := s.p + 1 }
+/-- if top < n { top = 0; p++; return }; top -= n; cs = stack[top]; p++ — an unmatched closing brace keeps the
+    current state (before fix a17d5be it loaded `stack[0]`, a state left behind by a call that had returned) -/
+def ret (s : CS) (n : Int) : R CS :=
+  if s.top < n then .ok { s with top := 0, p := s.p + 1 }
+  else
+    let t := s.top - n
+    if 0 ≤ t ∧ t < (s.stack.length : Int) then
+      .ok { s with top := t, cs := (s.stack[t.toNat]?).getD s.cs, p := s.p + 1 }
+    else .error .index
 
 inductive StackOp where
   | call (state fnext : Int)
